@@ -2,3 +2,4 @@
 #include "digital_rf.h"
 uint64_t verif_peek_global_index(Digital_rf_write_object *o) { return o->global_index; }
 int verif_peek_has_failure(Digital_rf_write_object *o) { return o->has_failure; }
+uint64_t verif_peek_init_utc_timestamp(Digital_rf_write_object *o) { return o->init_utc_timestamp; }
